@@ -20,7 +20,7 @@ type Mutation {
 }
 type Subscription {
   watch(topic: String, sid: Int!): Event!
-  watchAny(topic: String, sid: Int!): Happening!
+  watchAny(topic: String, sid: Int!): Happening
 }
 union Happening = Event | Notice
 type Notice {
